@@ -300,6 +300,11 @@ def gen_cases(tier, rng):
         if cp in _tc.SPECIAL_CPS or cp < 0x100:
             add(case(list(s)), "cp-part")
             add(tree_case(list(s)), "cp-tree")
+    # size only: wide tags (C16's family rendered as text)
+    from props import C16 as _c16
+    from props import xmlcommon as _X
+    for toks in _c16.wide_token_lists():
+        variants(_X.render(list(toks) + [("Z",)]), "-", "wide", False, True)
     # script elements: the tree builder answers Script at each </script>, the driver must resume until the chunk is used up
     for s in ["<a><script>x</script>y<b/>z</a>", "<script/>t<r/>", "<r><script></script><script>s</script>u</r>",
               "<script>1</script><script>2</script>w", "<a><script>x</script>", "<a><script>x</script>\r\n<!--c-->&amp;<c/></a>"]:
